@@ -1395,7 +1395,6 @@ def run_histories(chk, ref, quick):
 # ------------------------------------------------------------------ the TEXT entry point (load_playbook_yaml) and unencodable strings
 
 STD = "tag:yaml.org,2002:"
-FINDING_MERGE = "play-level-merge-key"
 FINDING_COLLTAG = "tag-not-in-digest"
 NONSTR_PLAIN = re.compile(r"^([-+]?(0x[0-9a-fA-F_]+|0o[0-7_]+|0b[01_]+|[0-9][0-9_]*)|true|True|TRUE|false|False|FALSE|~|null|Null|NULL|)$")
 
@@ -1455,6 +1454,7 @@ def _build(node, flags, stack):
     own, merged = [], []
     for kn, vn in node.value:
         if kn.tag == STD + "merge":
+            flags["merge"] = True
             srcs = vn.value if isinstance(vn, _rnodes.SequenceNode) else [vn]
             for src in srcs:
                 if not isinstance(src, _rnodes.MappingNode):
@@ -1690,8 +1690,6 @@ def text_edit(rng, text):
 def classify_text_finding(d1):
     """input predicate of the two known findings on YAML text"""
     fl = d1[2] if len(d1) > 2 else {}
-    if fl.get("play-level-merge"):
-        return FINDING_MERGE
     if fl.get("collection-tag") or fl.get("tag-on-nonstring-scalar"):
         return FINDING_COLLTAG
     return None
@@ -1771,12 +1769,29 @@ def run_text_and_encoding(chk, quick):
         model.append(hashlib.sha256(dec(f[1]).encode("utf-8")).hexdigest() if f[0] == "ok" else a)
     chk.compare("text entry point: digest of the loaded play = sha256(model serialisation of the play the text denotes)", cases, impl, model)
 
-    # ---- known findings on YAML text: witnesses against the implementation
+    # ---- regression witnesses of the repaired defect 9593a34 (merged keys outside the digest)
+    for c in load_corpus():
+        if c.get("op") != "text-regress":
+            continue
+        for k in c["cases"]:
+            o = text_outcome(k["text"])
+            same = text_outcome(k["same_digest_as"])
+            other = text_outcome(k["other_digest_than"]) if k.get("other_digest_than") else None
+            ok = o[0] == "digests" and o == same and (other is None or o != other)
+            chk.witnesses.append({"corpus": c["file"], "case": k["what"], "holds": ok})
+            if not ok:
+                if o != same:
+                    chk.failure("regression witness %s (%s): the text does not verify to the digest of the explicitly written play" % (c["file"], k["what"]),
+                                {"op": "text-equal", "expect": "equal", "text0": k["same_digest_as"], "text1": k["text"]})
+                else:
+                    chk.failure("regression witness %s (%s): the merged keys do not change the digest" % (c["file"], k["what"]),
+                                {"op": "text-equal", "expect": "different", "text0": k["other_digest_than"], "text1": k["text"]})
+
+    # ---- known finding on YAML text: witness against the implementation
     base = ("- name: w\n  hosts: all\n  vars:\n    insights_signature_exclude: /hosts,/vars/insights_signature\n"
             "    insights_signature: UExBQ0VIT0xERVI=\n  tasks:\n    - name: t\n      command: ok\n")
-    w_merge = base + "  <<: {pre_tasks: [{command: evil}]}\n"
     w_tag = base.replace("  tasks:\n", "  tasks: !unsafe\n")
-    for fid, w in ((FINDING_MERGE, w_merge), (FINDING_COLLTAG, w_tag)):
+    for fid, w in ((FINDING_COLLTAG, w_tag),):
         o0, o1 = text_outcome(base), text_outcome(w)
         d0, d1 = denote(base), denote(w)
         rep = o0[0] == "digests" and o1 == o0 and denoted_cores(d1) != denoted_cores(d0) and classify_text_finding(d1) == fid
@@ -1940,6 +1955,9 @@ def run(chk):
         "GPG is replaced by a stand-in that accepts exactly the signature made for the digest it is shown (and the shipped revocation list's real signature for that list's digest); whether base64.b64decode accepts a signature string is taken from the standard library",
         "YAML loading (ruamel) is outside the model: plays enter as CommentedMap/CommentedSeq objects (built directly or loaded from rendered text)",
         "floats, timestamps and binaries are outside the quantifier",
+        "YAML merge keys are expanded by load_playbook_yaml before the modelled functions see the play: the serialisation model has no merge notion; "
+        "the expansion is tied by the text stream (edited texts against an independent merge-expanding reading) and by corpus/C18/merge_keys.json "
+        "(each merge text must verify to the digest of the explicitly written play)",
     ]
     ref = RefServer()          # forked before this process makes any call into the verifier
     try:
@@ -2239,6 +2257,12 @@ def replay(data):
         else:
             check_text_pair(col, c["text0"], c["text1"], c.get("edit"))
             bad = bool(col.failures)
+        print("property violated on this input" if bad else "property holds on this input")
+        return 1 if bad else 0
+    if op == "text-equal":
+        o0, o1 = text_outcome(c["text0"]), text_outcome(c["text1"])
+        print("reference text: %s\ntext under test: %s\nexpected: %s digests" % (o0, o1, c["expect"]))
+        bad = o1[0] != "digests" or ((o0 == o1) != (c["expect"] == "equal"))
         print("property violated on this input" if bad else "property holds on this input")
         return 1 if bad else 0
     if op == "surrogate-pair":
